@@ -129,7 +129,7 @@ Fixpoint pmod (fuel : nat) (op : piop) (id : string) (n : pnode) (pairs : list (
               | None => (pn_set_str n k' ki, Some "not sortable")
               | Some sorted =>
                   pmod f op id (pn_set_str n k' ki)
-                       (map (fun x => (k, x)) vars ++ map (fun x => (k, picast x)) sorted ++ rest)%list
+                       (map (fun x => (k, x)) vars ++ map (fun x => (k, x)) sorted ++ rest)%list
               end
           | _ => (pn_set_str n k' ki, Some "can't handle")
           end
